@@ -93,6 +93,8 @@ Inductive op :=
 | Detrend (kw:kwargs)
 | Filter (w:wn) (ord:nat) (bt:string)
 | Rollback
+| ScipyRaises        (* a decimate/detrend/filter call that SciPy itself refuses on the present data (record too short for the
+                        padding, unknown ftype/type/btype value, Wn above Nyquist): SciPy is not modelled, the harness marks these calls *)
 | AddAlg (nm:nat).   (* add_algorithms(alg): nm identifies the algorithm INSTANCE (a fresh one, or one added before) *)
 
 (* __init__ / _initialize_data *)
@@ -145,6 +147,7 @@ Definition step (pc sg:bool) (s:state) (o:op) : presult state :=
       | POk s' => POk {| cur := cur s'; data := data s'; fs := fs s'; dt := dt s'; Ndats := Ndats s'; Ts := Ts s'; ref := ref s';
                          init := init s'; init_fs := init_fs s'; init_ref := init_ref s'; bound := bound s |}
       end
+  | ScipyRaises => PErr ValueErr   (* the helper raises before anything is assigned *)
   | AddAlg nm =>   (* alg._set_data(data=self.data, fs=self.fs), whether or not this instance was added before *)
       POk {| cur := cur s; data := data s; fs := fs s; dt := dt s; Ndats := Ndats s; Ts := Ts s; ref := ref s;
              init := init s; init_fs := init_fs s; init_ref := init_ref s; bound := (bound s ++ [(nm, (data s, fs s))])%list |}
@@ -156,6 +159,18 @@ Definition alg_lookup (nm:nat) (log:list (nat * (list view * Qc))) : option (lis
 
 Definition run (pc sg:bool) (s0:state) (ops:list op) : presult state :=
   fold_left (fun r o => bindp r (fun s => step pc sg s o)) ops (POk s0).
+
+(* A call that raises leaves the object as it was and the session goes on: the history continues from the unchanged state. *)
+Definition step_keep (pc sg:bool) (s:state) (o:op) : option perr * state :=
+  match step pc sg s o with POk s' => (None, s') | PErr e => (Some e, s) end.
+Fixpoint run_keep (pc sg:bool) (s:state) (ops:list op) : state :=
+  match ops with [] => s | o :: r => run_keep pc sg (snd (step_keep pc sg s o)) r end.
+(* the calls of a history that succeeded *)
+Fixpoint succ_ops (pc sg:bool) (s:state) (ops:list op) : list op :=
+  match ops with
+  | [] => []
+  | o :: r => match step pc sg s o with POk s' => o :: succ_ops pc sg s' r | PErr _ => succ_ops pc sg s r end
+  end.
 
 (* ---------------------------------------------------------------- the specification side --------------------- *)
 (* the operations issued after the last rollback *)
@@ -169,6 +184,7 @@ Definition app1 (c:list term * Qc) (o:op) : list term * Qc :=
   | Filter w ord bt => (map (Filt (snd c) w ord bt) (fst c), snd c)
   | Rollback => c
   | AddAlg _ => c
+  | ScipyRaises => c
   end.
 Definition apply_ops (ops:list op) (c:list term * Qc) : list term * Qc := fold_left app1 ops c.
 (* product of the decimation factors *)
@@ -176,7 +192,7 @@ Fixpoint qprod (ops:list op) : Qc :=
   match ops with [] => 1%Qc | Decimate q _ :: r => (Qc_of_pos q * qprod r)%Qc | _ :: r => qprod r end.
 (* every keyword of the call is a documented one *)
 Definition op_documented (o:op) : Prop :=
-  match o with Decimate _ kw => kw_ok dec_names kw = true | Detrend kw => kw_ok det_names kw = true | _ => True end.
+  match o with Decimate _ kw => kw_ok dec_names kw = true | Detrend kw => kw_ok det_names kw = true | ScipyRaises => False | _ => True end.
 
 (* the user's arrays as terms *)
 Fixpoint inits_from (k:nat) (shapes:list (nat * nat)) : list term :=
@@ -253,27 +269,30 @@ Definition showS (s:state) : string :=
   ++ match rev (bound s) with b :: _ => showBound (cur s) b | [] => "-" end.
 Definition showR (r:presult state) : string := match r with POk s => showS s | PErr e => "E:" ++ showErr e end.
 
-(* states after each call of a history (an error ends it) *)
-Fixpoint trace (pc sg:bool) (r:presult state) (ops:list op) : list (presult state) :=
-  match ops with
-  | [] => []
-  | o :: rest => let r' := bindp r (fun s => step pc sg s o) in r' :: match r' with POk _ => trace pc sg r' rest | PErr _ => [] end
-  end.
+(* outcome of each call of a history: (the exception raised, if any; the state after the call) *)
+Fixpoint trace_keep (pc sg:bool) (s:state) (ops:list op) : list (option perr * state) :=
+  match ops with [] => [] | o :: rest => let p := step_keep pc sg s o in p :: trace_keep pc sg (snd p) rest end.
+Definition last_keep (pc sg:bool) (s:state) (ops:list op) : option perr * state :=
+  fold_left (fun p o => step_keep pc sg (snd p) o) ops (None, s).
 Definition setup (sg:bool) (fs0:Qc) (refs:list (list nat)) (shapes:list (nat * nat)) : presult state :=
   init_state sg fs0 refs (inits shapes).
-(* one history: the state after construction and after every call *)
+(* "E:<exception>!" when the call raised, then the state after the call *)
+Definition showK (p:option perr * state) : string :=
+  match fst p with Some e => "E:" ++ showErr e ++ "!" | None => "" end ++ showS (snd p).
+Definition showTsK (p:option perr * state) : string := showL showQc " " (Ts (snd p)).
+(* one history: after construction and after every call *)
 Definition showTrace (pc sg:bool) (fs0:Qc) (refs:list (list nat)) (shapes:list (nat * nat)) (ops:list op) : string :=
-  let r0 := setup sg fs0 refs shapes in showL showR "~" (r0 :: trace pc sg r0 ops).
-(* one history: the final state only *)
+  match setup sg fs0 refs shapes with PErr e => "E:" ++ showErr e | POk s0 => showL showK "~" ((None, s0) :: trace_keep pc sg s0 ops) end.
+(* one history: outcome of the last call only *)
 Definition showFinal (pc sg:bool) (fs0:Qc) (refs:list (list nat)) (shapes:list (nat * nat)) (ops:list op) : string :=
-  showR (bindp (setup sg fs0 refs shapes) (fun s0 => run pc sg s0 ops)).
+  match setup sg fs0 refs shapes with PErr e => "E:" ++ showErr e | POk s0 => showK (last_keep pc sg s0 ops) end.
 Definition showFinals (pc sg:bool) (fs0:Qc) (refs:list (list nat)) (shapes:list (nat * nat)) (hs:list (list op)) : string :=
   showL (showFinal pc sg fs0 refs shapes) "#" hs.
 Definition showTraces (pc sg:bool) (fs0:Qc) (refs:list (list nat)) (shapes:list (nat * nat)) (hs:list (list op)) : string :=
   showL (showTrace pc sg fs0 refs shapes) "#" hs.
 (* durations only (used for the second model variant of SingleSetup, whose other components are identical) *)
-Definition showTsR (r:presult state) : string := match r with POk s => showL showQc " " (Ts s) | PErr e => "E:" ++ showErr e end.
 Definition showTsFinals (pc sg:bool) (fs0:Qc) (refs:list (list nat)) (shapes:list (nat * nat)) (hs:list (list op)) : string :=
-  showL (fun ops => showTsR (bindp (setup sg fs0 refs shapes) (fun s0 => run pc sg s0 ops))) "#" hs.
+  showL (fun ops => match setup sg fs0 refs shapes with PErr e => "E:" ++ showErr e | POk s0 => showTsK (last_keep pc sg s0 ops) end) "#" hs.
 Definition showTsTraces (pc sg:bool) (fs0:Qc) (refs:list (list nat)) (shapes:list (nat * nat)) (hs:list (list op)) : string :=
-  showL (fun ops => let r0 := setup sg fs0 refs shapes in showL showTsR "~" (r0 :: trace pc sg r0 ops)) "#" hs.
+  showL (fun ops => match setup sg fs0 refs shapes with PErr e => "E:" ++ showErr e
+                    | POk s0 => showL showTsK "~" ((None, s0) :: trace_keep pc sg s0 ops) end) "#" hs.
